@@ -11,6 +11,7 @@ import (
 	"time"
 
 	"verif/ev"
+	"verif/goosegen"
 	"verif/tlc"
 	"verif/vparse"
 )
@@ -254,6 +255,8 @@ func C05(c *ev.Ctx) {
 			}
 		}
 	}
+	richChecked := c05Rich(c, flagSets)
+	c.Set("rich_packages_checked", richChecked)
 	// lexical verdicts from the specification
 	var nd strings.Builder
 	for _, rcd := range recs {
@@ -312,3 +315,110 @@ func C05(c *ev.Ctx) {
 }
 
 var _ = time.Second
+
+// c05Rich: full-featured generated packages under every flag combination. Each emitted file must be read by vparse
+// without error, every definition body must be the same under all flags, and the file emitted without flags is
+// executed on the model against Go (a nesting that is not the source's changes the meaning or leaves a variable unbound).
+func c05Rich(c *ev.Ctx, flagSets [][]string) int {
+	if !glCalibration(c, false) {
+		return 0
+	}
+	npk := c.Pick(10, 80)
+	m, err := newGenModule(c, "mod-c05r")
+	if err != nil {
+		c.Inconclusive("module: %v", err)
+		return 0
+	}
+	defer os.RemoveAll(m.dir)
+	var pkgs []tvPackage
+	for p := 0; p < npk; p++ {
+		gp := goosegen.Generate(goosegen.Options{Seed: uint64(c.Seed)*77773 + uint64(p), Funcs: 3 + p%4, Entries: 4})
+		name := fmt.Sprintf("x%d", p)
+		var es []string
+		for _, e := range gp.Entries {
+			es = append(es, e.Name)
+		}
+		_ = m.addPackage(name, gp.Source, es)
+		pkgs = append(pkgs, tvPackage{Name: name, Source: gp.Source, Entries: gp.Entries, Keys: gp.Keys})
+	}
+	goRes, broken, err := m.runGo()
+	if err != nil {
+		c.Inconclusive("rich packages: %v", err)
+		return 0
+	}
+	bodies := map[string]map[string]string{}
+	var files0 map[string]string
+	checked := 0
+	for fi, flags := range flagSets {
+		gout := m.runGoose(c, flags...)
+		if gout.exit == 2 || strings.Contains(gout.stderr, "goroutine ") {
+			c.Inconclusive("goose crashed on the rich C05 batch:\n%s", firstLines(gout.stderr, 10))
+			return checked
+		}
+		if fi == 0 {
+			files0 = gout.files
+		}
+		for _, p := range pkgs {
+			if _, b := broken[p.Name]; b {
+				continue
+			}
+			text, ok := gout.files[p.Name]
+			if !ok {
+				c.Violation("c05.rejected", fmt.Sprintf("goose rejects generated package %s (flags %v):\n%s", p.Name, flags, extractErrors(gout.stderr, p.Name)), map[string]string{"gen.go": p.Source})
+				continue
+			}
+			checked++
+			pf, perr := vparse.ParseFile(text)
+			if perr != nil {
+				c.Report("c05.syntax", fmt.Sprintf("file emitted for %s (flags %v) is not well-formed GooseLang: %v", p.Name, flags, perr), map[string]string{"gen.go": p.Source, "emitted.v": text})
+				continue
+			}
+			for _, d := range pf.Decls {
+				if d.Body == nil || (d.Kind != "def" && d.Kind != "structdecl") {
+					continue
+				}
+				sb := d.Body.String()
+				if fi == 0 {
+					if bodies[p.Name] == nil {
+						bodies[p.Name] = map[string]string{}
+					}
+					bodies[p.Name][d.Name] = sb
+				} else if old, ok := bodies[p.Name][d.Name]; ok && old != sb {
+					c.Violation("c05.flag-variance", fmt.Sprintf("%s: the body of %s differs between flags %v and %v", p.Name, d.Name, flagSets[0], flags), map[string]string{"gen.go": p.Source, "emitted.v": text, "emitted-noflags.v": files0[p.Name]})
+				} else if !ok {
+					c.Violation("c05.flag-variance", fmt.Sprintf("%s: definition %s exists under flags %v but not under %v", p.Name, d.Name, flags, flagSets[0]), map[string]string{"gen.go": p.Source, "emitted.v": text, "emitted-noflags.v": files0[p.Name]})
+				}
+			}
+			if c.NViolations() > 8 {
+				return checked
+			}
+		}
+	}
+	var evalPkgs []tvPackage
+	for _, p := range pkgs {
+		if _, b := broken[p.Name]; !b && files0[p.Name] != "" {
+			evalPkgs = append(evalPkgs, p)
+		}
+	}
+	dis, _, ok := compareEmitted(c, "c05r", evalPkgs, goRes, files0)
+	if !ok {
+		return checked
+	}
+	for _, d := range dis {
+		if d.Kind == "unknown-ident" || d.Kind == "no-outcome" {
+			continue
+		}
+		var src string
+		for _, p := range pkgs {
+			if p.Name == d.Pkg {
+				src = p.Source
+			}
+		}
+		c.Report("c05.nesting."+d.Kind, fmt.Sprintf("package %s, definition %s: read with Coq's precedence the emitted text does not have the structure of the Go source: %s: %s\n  Go:    %s\n  model: %s", d.Pkg, d.Entry, d.Kind, d.Detail, d.GoRes, d.ModelRes),
+			map[string]string{"gen.go": src, "emitted.v": files0[d.Pkg], "entry.txt": d.Entry})
+		if c.NViolations() > 8 {
+			break
+		}
+	}
+	return checked
+}
